@@ -1065,6 +1065,9 @@ func runCliScenario(t *testing.T, fam string, seed uint64, idx int, out *bufio.W
 	} else if idx%6 == 5 && !(f.name == "c04" && tier == "thorough" && idx < cliExhaustive) {
 		policy = "race"
 	}
+	if p := os.Getenv("VERIF_CLI_POLICY"); p != "" {
+		policy = p // for experiments: force one policy on every scenario
+	}
 	if policy == "race" && (idx/6)%2 == 0 {
 		// half of the racing scenarios on one processor (a yield hands over to the next runnable
 		// goroutine), half with real parallelism
